@@ -40,6 +40,9 @@ type c19Import struct {
 	Public  bool   `json:"public"`
 	Rel     bool   `json:"relative_reference"`
 	Partial bool   `json:"partially_qualified"`
+	// the import's package is (inside) the namespace that the first component of
+	// some partially-qualified reference of X resolves to
+	NsMatch bool   `json:"package_is_namespace_of_a_partial_reference"`
 	Pkg     string `json:"package"`
 	// by-construction expectation (cross-check of the builder, not the oracle)
 	ExpectRemovable bool `json:"expect_removable"`
@@ -165,7 +168,7 @@ var c19PkgPool = []string{"a", "a.b", "a.b.c", "b", "c.d", "a.c"}
 
 // buildC19 builds one case. redundant == "" builds a deciding-set case
 // (every symbol reachable through exactly one import of X).
-func buildC19(rng *vlib.RNG, redundant string) *c19Case {
+func buildC19(rng *vlib.RNG, redundant string, nsBias bool) *c19Case {
 	c := &c19Case{src: map[string]string{}, xName: "x.proto", class: "unique"}
 	editions := rng.Chance(0.3)
 	lbl := "optional "
@@ -176,6 +179,10 @@ func buildC19(rng *vlib.RNG, redundant string) *c19Case {
 		c.header = "syntax = \"proto2\";\n"
 	}
 	xpkg := vlib.Pick(rng, []string{"x", "", "x.y", "a.x", "a.b.x"})
+	if nsBias {
+		// X inside the package tree of the providers: partially-qualified references are possible
+		xpkg = vlib.Pick(rng, []string{"a.x", "a.b.x", "a.b.c.x", "a.b"})
+	}
 	if xpkg != "" {
 		c.header += "package " + xpkg + ";\n"
 	}
@@ -184,7 +191,8 @@ func buildC19(rng *vlib.RNG, redundant string) *c19Case {
 	var topImports, topDecls []string
 	var fileLevel, decls []string
 	decls = append(decls, "message Own {}\n")
-	sharePkgs := rng.Chance(0.5)
+	var anchors []string // package names that the first component of a partially-qualified reference resolves to
+	sharePkgs := rng.Chance(0.5) || nsBias
 	pkgs := make([]string, n+1)
 	allPkgs := []string{"base", "top", "rs", "rb", "rc", "google.protobuf"}
 	for i := 1; i <= n; i++ {
@@ -216,7 +224,7 @@ func buildC19(rng *vlib.RNG, redundant string) *c19Case {
 		im := &c19Import{idx: i}
 		pkg := pkgs[i]
 		im.Pkg = pkg
-		im.Rel = rng.Chance(0.5) && relOK(pkg)
+		im.Rel = (rng.Chance(0.5) || nsBias) && relOK(pkg)
 		// choose the usage
 		var usage string
 		switch k := rng.Intn(20); {
@@ -291,6 +299,9 @@ func buildC19(rng *vlib.RNG, redundant string) *c19Case {
 				if ok {
 					spellPkg = rest
 					im.Partial = true
+					if rest != "" {
+						anchors = append(anchors, strings.Join(xp[:k], ".")+"."+first)
+					}
 				}
 			}
 		}
@@ -374,6 +385,13 @@ func buildC19(rng *vlib.RNG, redundant string) *c19Case {
 			c.imports = append(c.imports, im)
 		}
 	}
+	for _, im := range c.imports {
+		for _, a := range anchors {
+			if im.Pkg == a || strings.HasPrefix(im.Pkg, a+".") {
+				im.NsMatch = true
+			}
+		}
+	}
 	vlib.Shuffle(rng, c.imports)
 	// interleave file-level options and declarations
 	vlib.Shuffle(rng, decls)
@@ -424,6 +442,14 @@ func TestC19(t *testing.T) {
 		"the removal differential is run with the same compiler, so it decides only the warning logic, not resolution itself (C15/C18 do that)",
 		"by-construction expectation (unused / related-unnamed imports are the removable ones) is used as a cross-check of the builder: a disagreement with the removal differential is reported as inconclusive, not as a violation",
 	})
+	// fixed minimal cases (one per phenomenon the random classes are aimed at)
+	if r.Mine(0) {
+		for _, fc := range c19Fixed() {
+			if r.Want(fc.id) {
+				runC19(r, fc.id, fc.c, 0)
+			}
+		}
+	}
 	shapes := []string{"direct+reexport", "two-reexporters", "chain+direct", "public+nonpublic"}
 	n := r.N(400, 8000)
 	r.Par(n, func(i int) {
@@ -433,10 +459,13 @@ func TestC19(t *testing.T) {
 			redundant = shapes[(i/5)%len(shapes)]
 			id = fmt.Sprintf("red/%s/%d", redundant, i)
 		}
+		if i%5 == 3 {
+			id = fmt.Sprintf("ns/%d", i)
+		}
 		if !r.Want(id) {
 			return
 		}
-		c := buildC19(r.Rng(id), redundant)
+		c := buildC19(r.Rng(id), redundant, i%5 == 3)
 		runC19(r, id, c, i)
 	})
 }
@@ -500,6 +529,9 @@ func runC19(r *vlib.Run, id string, c *c19Case, salt int) {
 		}
 		isWarned := warned[im.Path] > 0
 		cls := "unique provider: " + im.Usage
+		if im.NsMatch && im.ExpectRemovable {
+			cls = "unique provider: removable import (unused / related-unnamed) whose package is the namespace through which a partially-qualified reference to ANOTHER import resolves"
+		}
 		if im.Redundant != "" {
 			pos := "searched later"
 			if k == firstRed {
@@ -580,4 +612,41 @@ func runC19(r *vlib.Run, id string, c *c19Case, salt int) {
 		r.Sample("case:"+c.class, map[string]any{"sources": c.src, "imports": c.imports, "warned": sortedKeys(warned)})
 	}
 	_ = sort.Strings
+}
+
+type c19FixedCase struct {
+	id string
+	c  *c19Case
+}
+
+// c19Fixed are hand-minimised cases.
+func c19Fixed() []c19FixedCase {
+	mk := func(header, body string, src map[string]string, class string, imports ...*c19Import) *c19Case {
+		c := &c19Case{src: src, xName: "x.proto", header: header, body: body, class: class, imports: imports}
+		c.src[c.xName] = c.renderX(-1)
+		return c
+	}
+	return []c19FixedCase{
+		{"fixed/namespace-match", mk("syntax = \"proto2\";\npackage a.x;\n", "message T { optional b.M f = 1; }\n",
+			map[string]string{
+				"u.proto": "syntax = \"proto2\";\npackage a.b;\nmessage Unrelated {}\n",
+				"w.proto": "syntax = \"proto2\";\npackage a.b;\nmessage M {}\n",
+			}, "unique",
+			&c19Import{Path: "u.proto", Usage: "unused", Pkg: "a.b", ExpectRemovable: true, NsMatch: true},
+			&c19Import{Path: "w.proto", Usage: "field-msg", Pkg: "a.b", Rel: true, Partial: true})},
+		{"fixed/namespace-match-leading-dot-control", mk("syntax = \"proto2\";\npackage a.x;\n", "message T { optional .a.b.M f = 1; }\n",
+			map[string]string{
+				"u.proto": "syntax = \"proto2\";\npackage a.b;\nmessage Unrelated {}\n",
+				"w.proto": "syntax = \"proto2\";\npackage a.b;\nmessage M {}\n",
+			}, "unique",
+			&c19Import{Path: "u.proto", Usage: "unused", Pkg: "a.b", ExpectRemovable: true},
+			&c19Import{Path: "w.proto", Usage: "field-msg", Pkg: "a.b"})},
+		{"fixed/redundant-direct+reexport", mk("syntax = \"proto2\";\npackage x;\n", "message T { optional .rs.RS f = 1; }\n",
+			map[string]string{
+				"rs.proto": "syntax = \"proto2\";\npackage rs;\nmessage RS {}\n",
+				"rb.proto": "syntax = \"proto2\";\npackage rb;\nimport public \"rs.proto\";\n",
+			}, "redundant:direct+reexport",
+			&c19Import{Path: "rs.proto", Usage: "redundant:field", Pkg: "rs", Redundant: "direct"},
+			&c19Import{Path: "rb.proto", Usage: "redundant:field", Pkg: "rs", Redundant: "re-exporter"})},
+	}
 }
